@@ -273,7 +273,7 @@ class P(Prop):
         (M, "TV.C13.writeToCsv_collection_roundtrip", "writeToCsv(collection, dir, TrackFormat) = writeToFiles: one file per track, each read back as its track"),
         (M, "TV.C13.writeToFile_default_roundtrip", "writeToFile(track, path) with every other argument at its default (E column 0, N column 1, ',', no header) is read back by the matching readFromCsv(path, 0, 1)"),
         (M, "TV.C13.readFromCsv_dir_roundtrip", "after writeToCsv(collection, dir, format), readFromCsv(dir, ...) returns the tracks of the files in whatever order the listing delivers them, each with all its observations (empty tracks skipped)"),
-        (M, "TV.C13.csv_read_all_roundtrip", "feature columns: a file written with its header block and af_names, values of any kind (int, float, str, nan, inf), is read back by readFromCsv(h=0|1|2, read_all=True) as the same observations, the same feature names in order, and per observation the values expAF(name, value)"),
+        (M, "TV.C13.csv_read_all_roundtrip", "feature columns: a file written with its header block and af_names, values of any kind (int, float, str, nan, inf), is read back by readFromCsv(h=hr, read_all=True) for EVERY reader header count hr = 0, 1, 2, 3 (3: the names line consumed raw by the header loop, the first data line met raw by the second pass) as the same observations, the same feature names in order, and per observation the values expAF(name, value)"),
         (M, "TV.C13.read_all_values", "what expAF is: int -> the same number, float n/10^d of ANY magnitude -> the decimal str() printed, positional or in exponent notation (value n/10^d, exactly), nan/inf -> themselves, a non-numeric string without quotes -> itself; names ending in & keep the text; ints are always writable as one column, floats when the separator is not a number character, e or +"),
         (M, "TV.C13.time_roundtrip", "readTimestamp(str(t)) gives back the fields named by a format of distinct full-width codes, for every stamp that fits the widths"),
         (M, "TV.C13.time_roundtrip_suffix", "the same when text follows the printed stamp (the Z of a GPX <time>)"),
@@ -296,6 +296,12 @@ class P(Prop):
         (M, "TV.C13.net_same_number_same_order", "network, any size: ANY number of edges with ANY number of vertices each, header written / not and read with the matching count: the same number of edges, the i-th edge read being the i-th edge written (ids, end nodes, orientation, every vertex)"),
         (M, "TV.C13.wkt_same_number_same_order", "WKT, any length: a track of any non-zero number of vertices exported by toWKT is parsed back as the same number of vertices, the i-th parsed being the i-th exported"),
         (M, "TV.C13.reread_roundtrip", "a timestamp text read under ANY lossless read format f2 gives the stamp whose text under f2 it is - whatever format it was printed with and whatever was read before (the oracle clause of the reread / twin-format sessions)"),
+        (M, "TV.C13.session_state_invariant", "hidden state: in every state reachable from the class body by any history of setReadFormat / setPrintFormat and library calls, the memo table __PRECOMPILED_READ_FMT is the precompiled form of the CURRENT read format (the literal list of the class body = the precompiled default format): readTimestamp depends on the text and the read format in force only"),
+        (M, "TV.C13.session_no_state_left", "hidden state: str, readTimestamp, timeWithZone, writeToGpx, writeToFile + readFromCsv (also when the reader raises) return with the read format, the print format and the memo table they found; any sequence of them leaves the state as found"),
+        (M, "TV.C13.session_time_roundtrip", "under ANY history of format changes and library calls that leaves read format = print format (lossless) at the time of the pair, str(t) then - after any further library calls - readTimestamp of that text gives the stamp back"),
+        (M, "TV.C13.session_csv_roundtrip", "the same for a file: writeToFile then readFromCsv in any reachable state with equal formats (hypotheses of csv_file_roundtrip): every observation comes back through the memo table of the state, and the state is left as found"),
+        (M, "TV.C13.str_string_level", "ObsTime.__str__ at STRING level (for each code of __codes: str.find, splice over two characters, until not found) equals the token-level model printTime(tokenize fmt) for every format whose literal characters are not code letters D M Y h m s z (assumed of Python: find of a two-character string, slicing, {:0wd}; no backslash in the format)"),
+        (M, "TV.C13.precompile_string_level", "ObsTime.__precompileReadFmt at string level (format.find(code) for every code, sort, shift; no '*') equals the token-level precompile(tokenize fmt) under the same hypothesis"),
         (M, "TV.C13.gpx_read_formats", "'4Y-2M-2DT2h:2m:2s' with or without Z reads the stamps the GPX writer prints, calendar part unchanged"),
         (M, "TV.C13.written_precision_partial", "the written precision is that of the text: the fixed-point text of CSV / GPX and the str(float) text of WKT (any magnitude, e or E) are read back by float() as exactly the decimal printed (format()'s rounding of arbitrary doubles and repr's choice of the shortest digits not covered)"),
     ]
@@ -303,20 +309,30 @@ class P(Prop):
                "missing: Python's format() rounding on arbitrary doubles, repr()'s choice of the shortest round-trip digits and float()'s correctly rounded conversion "
                "(sampled: 'fix' stream, byte-for-byte file comparison, off-lattice tracks, the full-range WKT / network / feature streams whose digits the harness "
                "computes by exact rational arithmetic)"]
-    open_statements = ["sessions: every operation of a session is modelled on its own, with the read / print formats in force when it runs (they move with the setfmt "
-                       "operations and mid_print); the hidden state of the library (class-level formats, memo tables, counters) is not part of the model: that no call "
-                       "leaves such state behind is checked by the session streams (global formats compared after every library call, the same texts read under twin "
-                       "formats, several readers of one file), not proved",
-                       "the string-level find/replace loops of ObsTime.__str__ and __precompileReadFmt are modelled on the tokenised format (codes recognised left to right); "
-                       "equivalence with the string algorithm for formats whose literals are not code letters is checked by correspondence only",
-                       "read_all: proved for reader header counts 0, 1, 2; hr = 3 (the names line consumed by the header loop, with its newline) is covered by "
+    open_statements = ["sessions: the class-level state of ObsTime (read format, print format, memo table) IS part of the model state for the operations "
+                       "setReadFormat / setPrintFormat / str / readTimestamp / ObsTime(str) / timeWithZone / writeToGpx / writeToFile + readFromCsv (stream hsession, "
+                       "theorems session_*); the other session streams (GPX read, network, WKT, KML, directory forms) still model every operation on its own with the "
+                       "formats in force, and that THEY leave no state behind is checked (global formats compared after every library call), not proved; "
+                       "TrackFormat objects built by the user BEFORE a format change and used after it (time_fmt is a stale copy: an exception inside "
+                       "__readFromCsv then leaves the stale format in force) are outside the model",
+                       "the string-level find/replace loops of ObsTime.__str__ and __precompileReadFmt: their equivalence with the tokenised model is PROVED for formats "
+                       "whose literals are not code letters (str_string_level, precompile_string_level; Python's str.find / slicing / format modelled as find2 / splice2 / "
+                       "zpad); open: formats with a literal code letter (the algorithms really differ there: '2DD' on day 12 prints '112'), the '*' wildcard of "
+                       "the read format, the backslash loop of __str__ (which does not terminate on a format holding a backslash but no '@')",
+                       "read_all: proved for every reader header count up to the header lines written (0 .. 3); counts beyond (the header loop eats data lines) are "
                        "correspondence only; float() of digit-group underscores (1_000) and of exponents beyond the double range (1e400 -> inf) is outside the "
                        "model (the generators avoid them)",
                        "TrackReader.parseWkt on POLYGON texts (never written by tracklib): the canonical one-ring layout has the theorem polygon_parse; polygons with "
                        "holes, stray blanks, z values and the MULTIPOLYGON branch (AttributeError) are modelled and compared on hand-made texts only",
                        "readFromCsv's no_data_value and com arguments keep their defaults (-999999, '#'); `com` is ignored by the library anyway (TrackFormat reads the key 'cmt')",
-                       "formats given by NAME (writeToFile(track, path, 'RTKLIB'), readFromFile(path, 'RTKLIB'): resources/track_file_format) are outside the model: their "
-                       "separators have several characters (`bb`) or their timestamps are seconds since a reference epoch (date_ini)",
+                       "formats given by NAME (resources/track_file_format) have no Lean model (separators of several characters `bb`, `%` comment lines, seconds since a "
+                       "reference epoch date_ini). Stream `named` runs them on the real code and pins what this tree does: the table lookup TrackFormat(name) agrees with an "
+                       "independent reading of the table; writeToFile(track, path, name) raises TypeError for EVERY name (TrackFormat(id_E, 0): the constructor takes one "
+                       "argument); writeToCsv(track, path, TrackFormat(name)) + readFromFile(path, name) round-trips for NO name of the table (the writer rebuilds a "
+                       "default format from ids / separator / header only: the header block has three `#` lines where the format announces `header` = 1 line and `%` "
+                       "comments; date_ini is dropped; six of the nine formats leave column 0 unused); TrackFormat('IMU_STEREOPOLIS') raises ValueError under the default read "
+                       "format (date_ini is parsed with the global read format, the format's own time_fmt is assigned afterwards). Pending findings named-format-roundtrip (the oracle of the stream "
+                       "speaks once the class is listed in known_findings.json)",
                        "TrackReader.readFromWkt is modelled for every column order, bare or quoted WKT texts, header counts and both doublequote values (stream wktfile); "
                        "the theorem wkt_file_roundtrip covers the layout uid, tid, quoted WKT; its selector / bboxFilter arguments keep their defaults"]
     modelled = ("TrackWriter.writeToFile (O list, sort, __printInOrder, float formats, feature columns with int / float / str / nan / inf values), "
@@ -328,7 +344,10 @@ class P(Prop):
                 "ECEF; ordinates printed by str(float) = float.__repr__'s layout rule over the whole range: positional, exponent notation below 1e-4 and from 1e16, "
                 "-0.0, 5.0), float() on decimal literals with an exponent part (e / E, signed exponent), TrackWriter.writeToCsv (track -> writeToFile, collection -> writeToFiles), TrackReader.parseWkt (POLYGON, LINESTRING, the MULTIPOLYGON branch's AttributeError), TrackWriter.writeToGpx body "
                 "with and without af=True (<extensions> block), "
-                "TrackReader.__readFromGpx (type trk: the <extensions> block skipped, then the per-tag steps gpxPt/gpxEndPt/gpxEle/gpxTime); the header block of writeToFile (h > 0: #srid, #ref point, #column names + feature names; no Reference epoch line, fmt.time_ini stays -1)")
+                "TrackReader.__readFromGpx (type trk: the <extensions> block skipped, then the per-tag steps gpxPt/gpxEndPt/gpxEle/gpxTime); the header block of writeToFile (h > 0: #srid, #ref point, #column names + feature names; no Reference epoch line, fmt.time_ini stays -1); "
+                "the class-level state of ObsTime (Model/TextIOSession.lean): __READ_FMT, __PRINT_FMT, __PRECOMPILED_READ_FMT with setReadFormat / setPrintFormat, "
+                "str and readTimestamp THROUGH that state (the reader loops over the memo table), the save / set / restore sequences of timeWithZone, writeToGpx and "
+                "__readFromCsv (TrackFormat.time_fmt = the read format at construction; the early exit of an exception)")
     trusted = ["Python's format()/repr()/float()/int() on the decimal lattice are modelled by an own decimal printer/parser; the rounding done by format() on "
                "off-lattice floats, and the shortest round-trip digits repr() chooses for an arbitrary double, are computed by the harness with exact rational "
                "arithmetic (`scaled`, `shortest`) and handed to the model, which lays them out (float.__repr__'s rule) and reads them back",
@@ -349,7 +368,7 @@ class P(Prop):
             "POLYGON / LINESTRING / MULTIPOLYGON texts, a fifth of their ordinates in exponent form, well formed or not; sessions of 2-6 operations (CSV, GPX to one file, GPX to one file per track in a directory, network, WKT, "
             "timeWithZone, KML, readTimestamp / ObsTime(str)) sharing the global ObsTime formats - set once at the start, or changed by the user between operations "
             "(setfmt), between the write and the read of one file (mid_print), with twin formats (same literals and widths, two-character codes permuted) whose files hold "
-            "the very same timestamp texts, files read by 2-3 readers; reread: one text under a sequence of read formats; LONG inputs (given by a rule, see X): tracks of 127 .. 5000 observations - every size "
+            "the very same timestamp texts, files read by 2-3 readers; reread: one text under a sequence of read formats; hsession: 3-9 operations (setReadFormat, setPrintFormat, str, readTimestamp / ObsTime(str) of the last printed text or of a text printed under another format, timeWithZone, writeToFile + readFromCsv, writeToGpx) from the state of the class body, the WHOLE class-level state (both formats and the private precompiled table) compared with the model state after every operation; LONG inputs (given by a rule, see X): tracks of 127 .. 5000 observations - every size "
             "2^k-1, 2^k, 2^k+1 for 128 <= 2^k <= 4096, and 1000, 3000, 5000 - through writeToFile / writeToCsv / the default call, with and without feature columns and "
             "read_all; GPX tracks of 129 .. 4097 points (a third with extensions), GPX collections of 33 / 129 tracks and of two tracks of 2049 points; chain networks "
             "of 129 .. 4097 edges and edges of 129 .. 2049 vertices; WKT texts of 129 .. 5000 vertices; files of 129 / 1025 WKT lines; collections of 10 - 34 tracks "
@@ -368,6 +387,15 @@ class P(Prop):
         self.Network, self.Node, self.Edge = Network, Node, Edge
         self.TW, self.TR, self.NW, self.NR, self.NF = TrackWriter, TrackReader, NetworkWriter, NetworkReader, NetworkFormat
         self.tmp = tempfile.gettempdir()
+        from tracklib.io import TrackFormat
+        self.TF = TrackFormat
+        # classes of findings already listed for C13 (the oracle of the `named` stream stays silent for a defect class until its
+        # entry is listed: the engine excuses listed classes only)
+        try:
+            import engine
+            self.known_classes = {e.get("class") for e in engine.load_known(self.id) if e.get("status") == "finding"}
+        except Exception:
+            self.known_classes = set()
 
     STALE = {"csv": "7.5;7.5;7.5;7.5\n7.5,7.5,7.5,7.5\n7.5 7.5 7.5 7.5\n7.5|7.5|7.5|7.5\n7.5\t7.5\t7.5\t7.5\n",
              "net": "zz,a,b,0,\"LINESTRING(0.0 0.0,1.0 1.0)\"\nzz;a;b;0;\"LINESTRING(0.0 0.0,1.0 1.0)\"\n",
@@ -938,6 +966,8 @@ class P(Prop):
             out.append(self.mixed_session(rng))
         for _ in range(300 if tier != "thorough" else 3000):
             out.append(self.reread_case(rng))
+        for _ in range(500 if tier != "thorough" else 5000):
+            out.append(self.hsession_case(rng))
         return [self.norm(c) for c in out]
 
     def cases(self, rng, tier):
@@ -1066,6 +1096,10 @@ class P(Prop):
         # WKT texts as other tools write them, parsed by TrackReader.parseWkt (reader only): polygons, z values, blanks, case
         for _ in range(400 if not thorough else 4000):
             out.append(self.wktp_case(rng))
+        # --- formats given by name
+        for name in self.NAMED:
+            for _ in range(3 if not thorough else 30):
+                out.append(self.named_case(rng, name))
         # --- long tracks, networks, collections, lines (written as a rule: see X)
         return self.spread(out, self.long_cases(rng, tier))
 
@@ -1138,6 +1172,92 @@ class P(Prop):
             text = head + rng.choice(["((", "((", "(", "(("]) + body + rng.choice(["))", "))", ")", "),(0 0,1 1))"])
         return {"kind": "wktp", "text": text}
 
+    # ---- hidden-state sessions: the class-level state of ObsTime (both formats AND the precompiled read table) is part of
+    # the model state (Model/TextIOSession.lean, driver command `sess`); compared after every operation
+    HS_FMTS = CSV_FMTS + ["2D/2M/2Y 2h:2m:2s", "1D/1M/4Y 1h:1m:1s", "4Y-2M-2DT2h:2m:2s.3zZ", "2h:2m:2s", "4Y_2M"]
+
+    def hsession_case(self, rng):
+        """3-9 operations on one process: the user's setReadFormat / setPrintFormat (R, P), str(t) (p), readTimestamp / ObsTime(str)
+        of the last printed text (l) or of a text printed under some other format (r), timeWithZone (z), writeToFile +
+        readFromCsv (c), writeToGpx (g)"""
+        base = rng.choice(CSV_FMTS)
+        pool = self.HS_FMTS + [twin_fmt(base, rng), twin_fmt(base, rng), base, base]
+        L = [l for l in self.layouts() if l["T"] != -1]
+        ops = []
+        for _ in range(rng.choice([3, 4, 5, 6, 7, 9])):
+            r = rng.random()
+            if r < 0.22:
+                f = rng.choice(pool)
+                how = rng.choice(["RP", "RP", "R", "P", "PR"])
+                for c in how:
+                    ops.append({"op": c, "f": f})
+            elif r < 0.40:
+                ops.append({"op": "p", "t": self.rand_stamp(rng)})
+                if rng.random() < 0.7:
+                    ops.append({"op": "l", "via": rng.choice(["readTimestamp", "ctor"])})
+            elif r < 0.50:
+                ops.append({"op": "l", "via": rng.choice(["readTimestamp", "ctor"])})
+            elif r < 0.60:
+                t = self.rand_stamp(rng)
+                if rng.random() < 0.6:
+                    t = [t[0], rng.randrange(1, 13), rng.randrange(1, 13), rng.randrange(0, 24), rng.randrange(0, 24), rng.randrange(0, 24), t[6]]
+                ops.append({"op": "r", "s": py_print(rng.choice([f for f in pool if fmt_is_lossless(f)]), t), "via": rng.choice(["readTimestamp", "ctor"])})
+            elif r < 0.68:
+                ops.append({"op": "z", "t": self.rand_stamp(rng)})
+            elif r < 0.90:
+                srid = rng.choice(SRIDS)
+                rows, q = self.rand_rows(rng, srid, n=rng.choice([1, 2, 3]))
+                h = rng.choice([0, 0, 1])
+                ops.append({"op": "c", "srid": srid, "ids": rng.choice(L * 3 + self.layouts()), "sep": rng.choice([",", ";", "|", "\t"]), "h": h, "hdrR": h,
+                            "q": q, "rows": rows})
+            else:
+                rows, q = self.rand_rows(rng, "GEO", n=rng.choice([1, 2]), q=8)
+                ops.append({"op": "g", "tid": rng.choice(["g", "trace", "7"]), "rows": rows})
+        return {"kind": "hsession", "ops": ops}
+
+    @staticmethod
+    def hs_formats(case):
+        """the read / print formats the USER has set before each operation of a hidden-state session (the class body sets both to
+        the default format): [(read, print) in force when operation i starts] + [(read, print) at the end]"""
+        rd = pr = DEFAULT_FMT
+        out = []
+        for op in case["ops"]:
+            out.append((rd, pr))
+            if op["op"] == "R":
+                rd = op["f"]
+            elif op["op"] == "P":
+                pr = op["f"]
+        return out + [(rd, pr)]
+
+    @staticmethod
+    def hs_csv(op, rd, pr):
+        """the `c` operation as a csv case (formats: those in force)"""
+        return {"kind": "csv", "srid": op["srid"], "ids": op["ids"], "sep": op["sep"], "h": op["h"], "hdrR": op["hdrR"], "pfmt": pr, "rfmt": rd,
+                "q": op["q"], "rows": op["rows"]}
+
+    # ---- formats given by NAME (resources/track_file_format)
+    NAMED = ["RTKLIB", "RTKLIB_ENU", "RTKLIB_XYZ", "NAVITIME", "IMU_STEREOPOLIS", "MAPMATCHER", "COTATION_RANDO", "COLLIER_N4", "CHAMOIS"]
+
+    @staticmethod
+    def named_lookup(table, name):
+        """independent reading of the format table: the line whose first field is `name` -> [ext, id_E, id_N, id_U, id_T, separator,
+        header, cmt, no_data, srid, time_fmt, date_ini text or -1, read_all]"""
+        for line in table.split("\n"):
+            line = line.strip()
+            if not line or line.startswith("#"):
+                continue
+            f = [x.strip() for x in line.split(",")]
+            if f[0] == name:
+                sep = f[7].replace("b", " ").replace("c", ",").replace("s", ";")
+                return [f[1], int(f[2]), int(f[3]), int(f[4]), int(f[5]), sep, int(f[8]), f[9], float(f[10]), f[11], f[12],
+                        -1 if f[6] == "-1" else f[6], f[13].upper() == "TRUE"]
+        return None
+
+    def named_case(self, rng, name):
+        srid = {"RTKLIB": "GEO", "COLLIER_N4": "GEO", "RTKLIB_XYZ": "ECEF"}.get(name, "ENU")
+        rows, q = self.rand_rows(rng, srid, n=rng.choice([1, 2, 3]))
+        return {"kind": "named", "name": name, "srid": srid, "q": q, "rows": rows}
+
     def search_cases(self, rng):
         """failing-input search after a broken correspondence: two more draws of the quick generator (every case costs a
         fork; the thorough generator would take minutes)"""
@@ -1172,6 +1292,11 @@ class P(Prop):
             t["srid"] = case["srid"]
             t["floats"] = case["q"] is None
             t["exponent_notation"] = any(v != 0 and (abs(cval(v, case["q"])) < 1e-4 or abs(cval(v, case["q"])) >= 1e16) for p in case["pts"] for v in p)
+        if k == "named":
+            t["name"] = case["name"]
+        if k == "hsession":
+            t["ops"] = "".join(sorted(set(o["op"] for o in case["ops"])))
+            t["formats_change"] = any(o["op"] in "RP" for o in case["ops"])
         if k == "session":
             t["ops"] = "-".join(o["kind"] for o in case["ops"])
             t["fmt"] = case["fmt"]
@@ -1209,6 +1334,8 @@ class P(Prop):
             return any(self.nontrivial(o) for o in case["ops"])
         if k in ("gpxdir", "gpxcoll"):
             return True
+        if k == "hsession":
+            return any(o["op"] in "pzc" for o in case["ops"])
         return True
 
     # ------------------------------------------------------------------ implementation
@@ -1249,7 +1376,7 @@ class P(Prop):
                     if b != c:
                         self.leaks.append([name, what, b, c])
 
-    ISOLATED = ("session", "reread", "gpxdir", "gpxcoll")
+    ISOLATED = ("session", "reread", "gpxdir", "gpxcoll", "hsession")
     _runner = None       # (owner pid, child pid, pipe to the child, pipe from the child)
 
     def impl(self, case):
@@ -1378,6 +1505,107 @@ class P(Prop):
             o["fmt_after"] = [T.getReadFormat(), T.getPrintFormat()]
             outs.append(o)
         return {"ops": outs}
+
+    def hidden_state(self):
+        """the class-level state of ObsTime: read format, print format, and the private precompiled read table"""
+        T = self.ObsTime
+        return [T.getReadFormat(), T.getPrintFormat(), [[c, int(i)] for c, i in T._ObsTime__PRECOMPILED_READ_FMT]]
+
+    def impl_hsession(self, case):
+        """the operations one after the other in this (fresh) process, from the state the class body leaves; the formats are
+        set by the R / P operations only; after every operation the whole class-level state is recorded"""
+        T = self.ObsTime
+        self.ambient = True
+        outs, last = [], ""
+        for op in case["ops"]:
+            k = op["op"]
+            self.leaks = []
+            try:
+                if k == "R":
+                    T.setReadFormat(op["f"]); o = {}
+                elif k == "P":
+                    T.setPrintFormat(op["f"]); o = {}
+                elif k == "p":
+                    t = op["t"]
+                    last = self.lib("str(ObsTime)", str, T(t[0], t[1], t[2], t[3], t[4], t[5], t[6]))
+                    o = {"text": last}
+                elif k == "z":
+                    t = op["t"]
+                    last = self.lib("ObsTime.timeWithZone", T(t[0], t[1], t[2], t[3], t[4], t[5], t[6]).timeWithZone)
+                    o = {"text": last}
+                elif k in ("l", "r"):
+                    o = {"back": self.read_stamp(last if k == "l" else op["s"], op.get("via"))}
+                elif k == "c":
+                    o = self.impl_csv(self.hs_csv(op, None, None))
+                elif k == "g":
+                    trk = self.mk_track("GEO", op["rows"], 8)
+                    trk.tid = op["tid"]
+                    path = self.tmpfile("gpx")
+                    try:
+                        self.lib("TrackWriter.writeToGpx", self.TW.writeToGpx, trk, path)
+                        with open(path, newline="") as fh:
+                            text = fh.read()
+                    finally:
+                        if os.path.exists(path):
+                            os.remove(path)
+                    o = {"text": "    <trk>\n" + text.partition("    <trk>\n")[2]}
+                else:
+                    raise ValueError(k)
+            except BaseException as e:
+                if isinstance(e, KeyboardInterrupt):
+                    raise
+                o = {"err": self.ekind(e), "detail": str(e)[:200], "in_lib": self.in_lib_call(e)}
+            o["state"] = self.hidden_state()
+            outs.append(o)
+        return {"ops": outs}
+
+    def impl_named(self, case):
+        """the two ways of writing a track in a format given by name - writeToFile(track, path, name) and writeToCsv(track, path,
+        TrackFormat(name)) - and the matching read readFromFile(path, name); the print format is the format's own time_fmt"""
+        T = self.ObsTime
+        trk = self.mk_track(case["srid"], case["rows"], case["q"])
+        path = self.tmpfile("txt")
+        out = {}
+        try:
+            try:
+                self.lib("TrackWriter.writeToFile(track, path, name)", self.TW.writeToFile, trk, path, case["name"])
+                out["by_name"] = "ok"
+            except Exception as e:
+                out["by_name"] = self.ekind(e)
+            try:
+                fmt = self.lib("TrackFormat(name)", self.TF, case["name"])
+            except BaseException as e:
+                out["lookup"] = self.ekind(e)
+                return out
+            out["lookup"] = [fmt.ext, fmt.id_E, fmt.id_N, fmt.id_U, fmt.id_T, fmt.separator, fmt.header, fmt.cmt, float(fmt.no_data_value), fmt.srid, fmt.time_fmt,
+                             -1 if isinstance(fmt.time_ini, int) else str(fmt.time_ini), bool(fmt.read_all)]
+            with open(self.TF.TRACK_FILE_FORMAT) as fh:
+                out["table"] = fh.read()
+            T.setPrintFormat(fmt.time_fmt)
+            try:
+                self.lib("TrackWriter.writeToCsv(track, path, TrackFormat(name))", self.TW.writeToCsv, trk, path, fmt)
+                with open(path, newline="") as fh:
+                    out["text"] = fh.read()
+            except Exception as e:
+                out["werr"] = self.ekind(e)
+                return out
+            try:
+                back = self.lib("TrackReader.readFromFile(path, name)", self.TR.readFromFile, path, case["name"])
+                out["read"] = self.obs_rows(back)
+            except BaseException as e:
+                if isinstance(e, KeyboardInterrupt):
+                    raise
+                out["read"] = self.ekind(e)
+            return out
+        finally:
+            if os.path.exists(path):
+                os.remove(path)
+
+    def named_roundtrip_ok(self, case, out):
+        if "werr" in out or isinstance(out.get("read"), str) or "read" not in out:
+            return False
+        lk = out["lookup"]
+        return self.check_rows(case["rows"], out["read"], case["q"], case["srid"], "csv", lk[3] != -1, lk[4] != -1, "") is None
 
     def impl_setfmt(self, case):
         """the user sets the global formats (not a round trip: nothing to check but the formats afterwards)"""
@@ -1756,8 +1984,27 @@ class P(Prop):
         k = case["kind"]
         if k == "session":
             return [l for op in self.norm(case)["ops"] for l in self.requests(op)]
-        if k in ("tz", "kml", "setfmt"):
+        if k in ("tz", "kml", "setfmt", "named"):
             return []
+        if k == "hsession":
+            toks = []
+            for op in case["ops"]:
+                o = op["op"]
+                if o in ("R", "P"):
+                    toks.append("%s:%s" % (o, hx(op["f"])))
+                elif o in ("p", "z"):
+                    toks.append("%s:%s" % (o, ",".join(map(str, op["t"]))))
+                elif o == "r":
+                    toks.append("r:%s" % hx(op["s"]))
+                elif o == "l":
+                    toks.append("l:")
+                elif o == "c":
+                    ids, geo = op["ids"], op["srid"] == "GEO"
+                    toks.append("c:%d/%d/%d/%d/%d/%d/%d/%d/%s/%s" % (geo, ids["E"], ids["N"], ids["U"], ids["T"], ord(op["sep"]), op["h"], op["hdrR"], hx(op["srid"]),
+                                                                   ";".join(self.row_tok(r, op["q"], 10 if geo else 3) for r in op["rows"])))
+                elif o == "g":
+                    toks.append("g:%s/%s" % (hx(str(op["tid"])), ";".join(self.row_tok(r, 8, 8) for r in op["rows"])))
+            return ["C13.sess " + "~".join(toks)]
         if k == "reread":
             return ["C13.time %s %s %s" % (hx(case["pfmt"]), hx(f), " ".join(map(str, case["t"]))) for f in case["fmts"]]
         if k == "gpxdir":
@@ -1846,6 +2093,28 @@ class P(Prop):
             return {"ops": outs}
         if k in ("tz", "kml", "setfmt"):
             return {}
+        if k == "named":
+            # no Lean model of the named formats (separators of several characters, `%` comment lines, seconds since a reference
+            # epoch): what the code on this tree is known to do, see open_statements / the findings named-format-*
+            return {"by_name": "type", "roundtrip": False}
+        if k == "hsession":
+            outs = []
+            parts = replies[0].split(" ## ")
+            if len(parts) != len(case["ops"]):
+                raise ValueError("driver reply: %d operations for %d" % (len(parts), len(case["ops"])))
+            for op, part in zip(case["ops"], parts):
+                body, _, stt = part.rpartition(" @ ")
+                rd, pr, pre = stt.split(",")
+                o = {}
+                if body.startswith("T") or body.startswith("F"):
+                    o = {"text": unhx(body[1:])}
+                elif body.startswith("S"):
+                    o = {"back": "value" if body == "Snone" else [int(v) for v in body[1:].split(",")]}
+                elif body != "-":
+                    o = self.decode(self.hs_csv(op, None, None), [body])
+                o["state"] = [unhx(rd), unhx(pr), [] if pre == "_" else [[t.split(":")[0], int(t.split(":")[1])] for t in pre.split(".")]]
+                outs.append(o)
+            return {"ops": outs}
         if k == "reread":
             ds = [self.decode({"kind": "time"}, [r]) for r in replies]
             return {"text": ds[0]["text"], "backs": [d["back"] for d in ds]}
@@ -1932,6 +2201,38 @@ class P(Prop):
                     return "operation %d (%s): %s" % (i, op["kind"], m)
             return None
         if k in ("tz", "kml", "setfmt") and "err" not in impl_out:
+            return None
+        if k == "named" and "err" not in impl_out:
+            if "table" not in impl_out:
+                # the constructor itself raised: on this tree it does for the one format with a date_ini (IMU_STEREOPOLIS) - createFromFile
+                # parses date_ini with the GLOBAL read format (self.time_fmt still holds ObsTime.getReadFormat() at that point, the
+                # format's own time_fmt is assigned four lines later): ValueError under the default read format
+                if case["name"] == "IMU_STEREOPOLIS" and impl_out.get("lookup") == "value":
+                    return None
+                return "TrackFormat(%r) raised %s" % (case["name"], impl_out.get("lookup"))
+            want = self.named_lookup(impl_out.get("table", ""), case["name"])
+            if impl_out.get("lookup") != want:
+                return "TrackFormat(%r): impl=%s, the line of the table says %s" % (case["name"], impl_out.get("lookup"), want)
+            if impl_out["by_name"] != model_out["by_name"]:
+                return "writeToFile(track, path, %r): %s (was: TypeError from TrackFormat(id_E, 0))" % (case["name"], impl_out["by_name"])
+            if self.named_roundtrip_ok(case, impl_out) != model_out["roundtrip"]:
+                return "writeToCsv(track, path, TrackFormat(%r)) + readFromFile(path, %r) now round-trips: %s" % (case["name"], case["name"], str(impl_out.get("read"))[:200])
+            return None
+        if k == "hsession" and "err" not in impl_out:
+            for i, (op, io, mo) in enumerate(zip(case["ops"], impl_out["ops"], model_out["ops"])):
+                if "err" in io:
+                    return "operation %d (%s) raised %s: %s" % (i, op["op"], io["err"], io.get("detail"))
+                if io["state"] != mo["state"]:
+                    return "operation %d (%s): class-level state of ObsTime (read format, print format, precompiled table): impl=%s model=%s" % (
+                        i, op["op"], io["state"], mo["state"])
+                a = {kk: v for kk, v in io.items() if kk != "state"}
+                b = {kk: v for kk, v in mo.items() if kk != "state"}
+                if op["op"] == "c":
+                    m = self.compare(self.hs_csv(op, None, None), a, b)
+                    if m:
+                        return "operation %d (c): %s" % (i, m)
+                elif a != b:
+                    return "operation %d (%s): impl=%s model=%s" % (i, op["op"], str(a)[:300], str(b)[:300])
             return None
         if k == "reread" and "err" not in impl_out:
             mine = {"text": impl_out["text"], "backs": impl_out["backs"]}
@@ -2082,6 +2383,50 @@ class P(Prop):
                 return "session %r:%s" % (case["fmt"], leak)
             return None
         if k in ("tz", "kml", "setfmt"):
+            return None
+        if k == "named":
+            # the oracle of this stream speaks only once the finding is listed (known_findings.json): see classify
+            if "named-format-roundtrip" not in self.known_classes:
+                return None
+            lk = out.get("lookup")
+            if not isinstance(lk, list):
+                return None
+            used = [v for v in lk[1:5] if v != -1]
+            if sorted(used) != list(range(len(used))) or not fmt_is_lossless(lk[10]) or lk[11] != -1:
+                return None
+            if out["by_name"] != "ok":
+                return "writeToFile(track, path, %r) raised %s" % (case["name"], out["by_name"])
+            if not self.named_roundtrip_ok(case, out):
+                return "format %r: written by writeToCsv(track, path, TrackFormat(name)), read by readFromFile(path, name): %s" % (case["name"], str(out.get("read", out.get("werr")))[:300])
+            return None
+        if k == "hsession":
+            # (a) no library call leaves the global read / print formats other than the user set them; (b) a text printed under a
+            # lossless format and read back while the read format in force is that same format gives the stamp back - more generally
+            # a text that IS what the read format in force prints for a valid stamp is read as that stamp; (c) every writeToFile /
+            # readFromCsv pair is a round trip under the formats in force
+            fm = self.hs_formats(case)
+            last = None
+            for i, (op, o) in enumerate(zip(case["ops"], out["ops"])):
+                tag = "hidden-state session, operation %d (%s)" % (i, op["op"])
+                rd, pr = fm[i]
+                if "err" in o:
+                    if op["op"] in ("z", "g") or not o.get("in_lib"):
+                        continue
+                    return "%s raised %s (%s)" % (tag, o["err"], o.get("detail"))
+                if o["state"][:2] != list(fm[i + 1]):
+                    return "%s left the global ObsTime read / print formats at %s, the user set %s" % (tag, o["state"][:2], list(fm[i + 1]))
+                if op["op"] in ("p", "z"):
+                    last = o["text"]
+                if op["op"] in ("l", "r"):
+                    text = last if op["op"] == "l" else op["s"]
+                    if text is not None and fmt_is_lossless(rd):
+                        want = py_parse(rd, text)
+                        if want is not None and valid_stamp(want) and py_print(rd, want) == text and o["back"] != want:
+                            return "%s: the text %r is what the read format in force %r prints for %s; it is read back as %s" % (tag, text, rd, want, o["back"])
+                if op["op"] == "c":
+                    m = self.spec(self.hs_csv(op, rd, pr), {kk: v for kk, v in o.items() if kk != "state"})
+                    if m:
+                        return "%s under read format %r / print format %r: %s" % (tag, rd, pr, m)
             return None
         if k == "reread":
             # the text s is read under each format f in turn. Whenever s is the text the writer prints, under f, for a valid
@@ -2255,6 +2600,8 @@ class P(Prop):
         if k == "csv":
             if case["ids"]["T"] != -1 and case["sep"] in case["pfmt"]:
                 return "csv-separator-in-timestamp"
+        if k == "named":
+            return "named-format-roundtrip"
         if k == "gpx" and case["srid"] != "GEO" and any(r[2] != 0 for r in case["rows"]):
             return "gpx-elevation-non-geo"
         if k == "gpxcoll" and case["srid"] != "GEO" and any(r[2] != 0 for tr in case["tracks"] for r in tr["rows"]):
@@ -2300,6 +2647,16 @@ class P(Prop):
                     if i == len(ops) - 1 and not stamps(sm) <= stamps(op):
                         continue        # the timestamps of the final round trip are what a leaked format corrupts: keep them
                     yield self.norm(dict(case, ops=ops[:i] + [sm] + ops[i + 1:]))
+            return
+        if k == "hsession":
+            ops = case["ops"]
+            for i in range(len(ops)):
+                if len(ops) > 1:
+                    yield dict(case, ops=ops[:i] + ops[i + 1:])
+            for i, op in enumerate(ops):
+                if op["op"] == "c" and len(op["rows"]) > 1:
+                    for j in range(len(op["rows"])):
+                        yield dict(case, ops=ops[:i] + [dict(op, rows=op["rows"][:j] + op["rows"][j + 1:])] + ops[i + 1:])
             return
         if k == "reread" and len(case["fmts"]) > 1:
             for i in range(len(case["fmts"])):
